@@ -60,6 +60,8 @@ class Run:
 
     def inst(self, rule, func, construct, ok, message='', node=None, detail=None, nontrivial=True, obligation=False):
         """Record one evaluated rule instance.  `construct` is a role or normalised text (never a line)."""
+        if rule is None:
+            return          # a shared rule family called by a property that does not claim this part
         fq = func.qualname if hasattr(func, 'qualname') else str(func)
         if node is not None and hasattr(func, 'site'):
             site = func.site(node)
